@@ -16,7 +16,6 @@ import (
 	"strings"
 
 	"github.com/juev/hledger-lsp/internal/formatter"
-	"github.com/juev/hledger-lsp/internal/parser"
 	"github.com/juev/hledger-lsp/internal/server"
 	"go.lsp.dev/protocol"
 )
@@ -116,7 +115,7 @@ func c05HandlerCase(c *Ctx, texts []string, decls [][]c05Decl, opts formatter.Op
 	}
 	doc := texts[len(texts)-1]
 	formats := c05FormatsOf(decls[len(decls)-1])
-	j, errs := parser.Parse(doc)
+	j, errs := hxParse(doc)
 	return formatCaseEdits(doc, j, errs, formats, opts, "", edits)
 }
 
